@@ -63,7 +63,10 @@ def _field(kind, tag):
     if kind == "optdef":
         return dataclasses.field(default=tag), typing.Optional[int]
     if kind == "fac":
-        return dataclasses.field(default_factory=lambda t=tag: [t]), typing.List[int]
+        # same value type as the other kinds: in a diamond dataclasses lets the LAST base's whole field
+        # table win while typing.get_type_hints follows the MRO, so conflicting TYPES of one member are
+        # ambiguous by themselves (not a mashumaro matter); default status / init / nullability still vary
+        return dataclasses.field(default_factory=lambda t=tag: t), int
     if kind == "plain":
         return tag, int
     return dataclasses.MISSING, int   # bare annotation
@@ -159,7 +162,7 @@ def run_graphs(ctx, graphs):
         non_members = [k for k in keys if k not in flds]   # annotated only in non-dataclass ancestors (or ClassVar-like): not parameters
         inputs = [{}, {k: 5 for k in flds}, {k: 5 for k in keys}] + [{k: 5} for k in keys]
         for d in inputs:
-            dd = {k: ([5] if (k in flds and flds[k].default_factory is not dataclasses.MISSING) else v) for k, v in d.items()}
+            dd = dict(d)
             exp = None
             for f in flds.values():
                 has_def = f.default is not dataclasses.MISSING or f.default_factory is not dataclasses.MISSING
